@@ -52,6 +52,10 @@ type Case struct {
 	// Fault "fsclose": every guest module gets a preopened directory whose Close fails with EIO (a
 	// close-time I/O fault); closing must still release the instance's other resources exactly once.
 	Fault string `json:"fault,omitempty"`
+	// Shrink > 0 lowers the population at which the name registry starts shrinking its map (100 in the real
+	// tree) to that number, so that closing one of two or three named modules takes the shrinking branch of
+	// deleteModule; 0 leaves the real value, with which no bounded scenario can reach that branch.
+	Shrink int `json:"shrink,omitempty"`
 }
 
 // ---------------------------------------------------------------- one execution
@@ -160,6 +164,11 @@ func runOne(c Case, prefix []int) *execution {
 		cfg = wazero.NewRuntimeConfigCompiler()
 	} else {
 		cfg = wazero.NewRuntimeConfigInterpreter()
+	}
+	if c.Shrink > 0 {
+		wasm.VerifSetNameToModuleShrinkThreshold(c.Shrink)
+	} else {
+		wasm.VerifSetNameToModuleShrinkThreshold(100)
 	}
 	rt := wazero.NewRuntimeWithConfig(ctx, cfg)
 	compiled, err := rt.CompileModule(ctx, emptyBin)
@@ -804,6 +813,23 @@ func buildCases(run *fw.Run) []Case {
 			}
 			if closes && !strings.HasPrefix(s.Label, "gen") {
 				cases = append(cases, Case{Scn: s, Engine: eng, Bound: b, Fault: "fsclose"})
+			}
+			// shrinking-registry variant for the scenarios with at least two names and a close
+			names := map[string]bool{}
+			for _, n := range s.Pre {
+				names[n] = true
+			}
+			for _, th := range s.Threads {
+				for _, o := range th {
+					if (o.K == "inst" || o.K == "hostInst") && o.Name != "" {
+						names[o.Name] = true
+					}
+				}
+			}
+			if closes && len(names) >= 2 && !strings.HasPrefix(s.Label, "gen") {
+				sv := s
+				sv.Label += "#shrink1"
+				cases = append(cases, Case{Scn: sv, Engine: eng, Bound: b, Shrink: 1})
 			}
 		}
 	}
